@@ -197,6 +197,107 @@ impl<'a> VxSliceRef<'a> {
     ensures r.wf(), r.iter.s == self.0, r.iter.pos == 0,
 //@end
 }
+
+// ---------------------------------------------------------------- fingerprint.rs (agent side of C10)
+// `E.iter().find(f)`: the first element satisfying f
+pub fn vx_find<'a, T, F: Fn(&&'a T) -> bool>(v: &'a Vec<T>, f: F) -> (r: Option<&'a T>)
+    requires forall|i: int| 0 <= i < v@.len() ==> call_requires(f, (&&v@[i],)),
+    ensures match r {
+        Some(x) => exists|k: int| 0 <= k < v@.len() && *x == v@[k] && call_ensures(f, (&&v@[k],), true)
+            && forall|j: int| 0 <= j < k ==> call_ensures(f, (&&v@[j],), false),
+        None => forall|j: int| 0 <= j < v@.len() ==> call_ensures(f, (&&v@[j],), false),
+    },
+{
+    let mut i: usize = 0;
+    while i < v.len()
+        invariant i <= v@.len(),
+            forall|j: int| 0 <= j < v@.len() ==> call_requires(f, (&&v@[j],)),
+            forall|j: int| 0 <= j < i ==> call_ensures(f, (&&v@[j],), false),
+        decreases v@.len() - i,
+    {
+        let x = &v[i];
+        if f(&x) { return Some(x); }
+        i += 1;
+    }
+    None
+}
+//@item! stun_agent :: enum StunAgentError
+#[verifier::external_body]
+pub struct StunError { _p: () }
+//@include inc/fp_vocab.rs
+impl Fingerprint {
+    #[verifier::external_body]
+    pub fn validate(&self, input: &[u8]) -> (r: bool) ensures r == fp_validates(*self, input@) { unimplemented!() }
+}
+impl Default for Fingerprint { #[verifier::external_body] fn default() -> Self { unimplemented!() } }
+impl StunAttributeType for Fingerprint {
+    open spec fn spec_type() -> u16 { TY_FINGERPRINT }
+    #[verifier::external_body]
+    fn get_type() -> (r: AttributeType) { unimplemented!() }
+}
+impl StunAttribute {
+    #[verifier::external_body]
+    pub fn as_fingerprint(&self) -> (r: Result<&Fingerprint, StunError>)
+        ensures r is Ok <==> self.ty() == TY_FINGERPRINT, r is Ok ==> *r->Ok_0 == fp_of(*self),
+    { unimplemented!() }
+}
+#[verifier::external_body]
+pub fn get_input_text<A: StunAttributeType>(buffer: &[u8]) -> (r: Option<Vec<u8>>)
+    requires A::spec_type() == TY_FINGERPRINT,
+    ensures match fp_input(buffer@) { Some(t) => r is Some && r->Some_0@ == t, None => r is None },
+{ unimplemented!() }
+impl StunMessage {
+    pub open spec fn attrs_view(&self) -> Seq<StunAttribute> { self.attributes@ }
+//@item stun_rs :: mod message > impl StunMessage > fn get
+//@tags C10
+//@rules R6F
+//@closure 1
+|attr: &&StunAttribute| -> (b: bool)
+    ensures b == (attr.ty() == A::spec_type()),
+//@spec
+    ensures match r {
+        Some(x) => exists|k: int| 0 <= k < self.attributes@.len() && *x == self.attributes@[k] && x.ty() == A::spec_type()
+            && forall|j: int| 0 <= j < k ==> self.attributes@[j].ty() != A::spec_type(),
+        None => forall|j: int| 0 <= j < self.attributes@.len() ==> self.attributes@[j].ty() != A::spec_type(),
+    },
+//@end
+}
+//@item stun_agent :: mod fingerprint > fn validate_fingerprint_attribute
+//@tags C10
+//@closure 1
+|_e: StunError| -> (x: StunAgentError)
+    ensures x is StunCheckFailed,
+//@sub "|_|" => "|_e|"
+//@sub "&input" => "input.as_slice()"
+//@spec
+    ensures attr.ty() != TY_FINGERPRINT ==> r is Err && r->Err_0 is StunCheckFailed,
+        attr.ty() == TY_FINGERPRINT ==> match fp_input(raw_buffer@) {
+            Some(t) => r == Ok::<bool, StunAgentError>(fp_validates(fp_of(*attr), t)),
+            None => r is Err && r->Err_0 is StunCheckFailed,
+        },
+//@end
+//@item stun_agent :: mod fingerprint > fn validate_fingerprint
+//@tags C10
+//@spec
+    ensures match fp_verdict_of(raw_buffer@, msg.attrs_view()) {
+        Some(b) => r == Ok::<bool, StunAgentError>(b),
+        None => r is Err && r->Err_0 is StunCheckFailed,
+    },
+//@end
+impl VxIntoAttrF for Fingerprint {}
+pub trait VxIntoAttrF {}
+//@item stun_agent :: mod fingerprint > fn add_fingerprint_attribute
+//@tags C10 C13
+//@sub "attributes.add(Fingerprint::default());" => "attributes.add(vx_fp_default_attr());"
+//@spec
+    requires old(attributes).wf(),
+    ensures final(attributes).wf(), final(attributes).fingerprint == Some(fp_default_attr()),
+        final(attributes).attributes@ == old(attributes).attributes@, final(attributes).integrity == old(attributes).integrity,
+        final(attributes).integrity_sha256 == old(attributes).integrity_sha256,
+//@end
+// `Fingerprint::default().into()`
+#[verifier::external_body]
+pub fn vx_fp_default_attr() -> (r: StunAttribute) ensures r == fp_default_attr(), r.ty() == TY_FINGERPRINT { unimplemented!() }
 proof fn vx_sentinel() ensures false {}
 } // verus!
 fn main() {}
